@@ -531,15 +531,47 @@ func parseMS(body []byte) ([]Entry, error) {
 type Sandbox struct {
 	Dir     string // the sandbox top on disk
 	RootRel []string
+	noSnap  bool
+	Spell   string // how the root is written in the configuration ("" = clean)
 	Handler *webdav.Handler
 	FS      webdav.LocalFileSystem
 	wrap    func(io.Reader) io.Reader
 }
 
 func NewSandbox(dir string, rootRel []string) *Sandbox {
-	root := filepath.Join(append([]string{dir}, rootRel...)...)
+	return NewSandboxSpelled(dir, rootRel, "")
+}
+
+// RootSpellings are ways of writing the same served directory in the configuration
+// (LocalFileSystem("/srv/dav/") and the like).  The model knows the root as a list of
+// segments, so every spelling must behave as the clean one.
+var RootSpellings = []string{"", "slash", "dot", "slashdot", "dslash", "updown", "innerdot", "innerdslash"}
+
+func spellRoot(root, how string) string {
+	switch how {
+	case "slash":
+		return root + "/"
+	case "dot":
+		return root + "/."
+	case "slashdot":
+		return root + "/./"
+	case "dslash":
+		return root + "//"
+	case "updown":
+		return root + "/zz/.."
+	case "innerdot":
+		return filepath.Dir(root) + "/./" + filepath.Base(root)
+	case "innerdslash":
+		return filepath.Dir(root) + "//" + filepath.Base(root)
+	}
+	return root
+}
+
+// NewSandboxSpelled serves the same directory, written as the spelling says.
+func NewSandboxSpelled(dir string, rootRel []string, how string) *Sandbox {
+	root := spellRoot(filepath.Join(append([]string{dir}, rootRel...)...), how)
 	fs := webdav.LocalFileSystem(root)
-	return &Sandbox{Dir: dir, RootRel: rootRel, Handler: &webdav.Handler{FileSystem: fs}, FS: fs}
+	return &Sandbox{Dir: dir, RootRel: rootRel, Spell: how, Handler: &webdav.Handler{FileSystem: fs}, FS: fs}
 }
 
 // Reset makes the sandbox content equal to tree (a directory node).
@@ -558,7 +590,24 @@ func (s *Sandbox) RootSx() string {
 	for _, r := range s.RootRel {
 		items = append(items, hx.S(r))
 	}
+	if s.Spell != "" {
+		items = append(items, "@"+s.Spell) // not a segment: the oracle skips it, replay reads it
+	}
 	return hx.L(items...)
+}
+
+// ParseRoot reads a (root ...) item back: the segments and the spelling.
+func ParseRoot(x hx.Sx) ([]string, string) {
+	var rel []string
+	spell := ""
+	for _, a := range x.Args() {
+		if !a.IsList && strings.HasPrefix(a.Atom, "@") {
+			spell = a.Atom[1:]
+			continue
+		}
+		rel = append(rel, a.Str())
+	}
+	return rel, spell
 }
 
 // Do runs one request against the real handler. before must be the current
@@ -734,7 +783,10 @@ func (s *Sandbox) Do(r Req, before *Node) (Derived, Obs, *Node) {
 		}()
 		s.Handler.ServeHTTP(rec, req)
 	}()
-	after := Snapshot(s.Dir)
+	var after *Node
+	if !s.noSnap {
+		after = Snapshot(s.Dir)
+	}
 	if o.Panic {
 		return d, o, after
 	}
@@ -781,6 +833,14 @@ func (s *Sandbox) Do(r Req, before *Node) (Derived, Obs, *Node) {
 		}
 	}
 	return d, o, after
+}
+
+// DoNoSnapshot serves r without reading the sandbox before or after (race stages, where
+// only the response is looked at).
+func (s *Sandbox) DoNoSnapshot(r Req) (Derived, Obs, *Node) {
+	s.noSnap = true
+	defer func() { s.noSnap = false }()
+	return s.Do(r, Dir())
 }
 
 // Line renders one case.
